@@ -1,5 +1,5 @@
 (** Witnesses for the findings of C09 / C10, closed by computation on the models. *)
-From Sci Require Import Snap.Model_C10 Snap.Spec_C10.
+From Sci Require Import Snap.Model_C10 Snap.Spec_C10 Snap.Model_C09.
 Local Open Scope string_scope. Local Open Scope N_scope.
 
 (** * C10, repaired: `validate_nbf` was false (jsonwebtoken's default) in build_validation().
@@ -45,4 +45,17 @@ Lemma other_aud_refused :
     (mkToken (t_header tok_malformed_aud)
              (Some [("pssid", JStr "u"); ("exp", JNum 9000); ("jti", JStr "j"); ("aud", JArr [JStr "other"])])
              (fun k => k =? 0)) = Reject EAud.
+Proof. vm_compute. reflexivity. Qed.
+
+(** * C09: no finding.  Two behaviours worth knowing, both allowed by the property sentence
+    ("until the identity registers again"): the WireGuard session outlives the lapse, so after
+    a re-registration traffic resumes WITHOUT a new handshake; and outbound payloads queued
+    while the session was unconfirmed are sent when the client's next packet arrives -- but
+    only if the identity is authorised at that later moment (otherwise they stay queued). *)
+Lemma c09_tunnel_revives_without_handshake :
+  map snd (snd (@run toy_wg toy_pkt (list N) toy_new toy_in toy_out toy_tick toy_hs toy_keepalive state0
+     [ERegister 0 1 5; EPacketIn 0 (THandshake 1); EPacketIn 0 (TData 1 []); EAdvance 5;
+      EPacketIn 0 (TData 1 [7]); EPacketOut 0 [8]; ERegister 0 1 5; EPacketIn 0 (TData 1 [9]); EPacketOut 0 [10]]))
+  = [ORegistered true; OIncoming 0 1 None [TResponse]; OIncoming 0 1 None []; ONothing;
+     OUnauthorized; ODroppedOut; ORegistered false; OIncoming 0 1 (Some [9]) []; OEncrypted 0 1 (Some (TData 1 [10]))].
 Proof. vm_compute. reflexivity. Qed.
